@@ -253,6 +253,12 @@ func fixDecodedObject(
 			}
 			o.Value[k] = fv
 		}
+	case *Error:
+		fv, err := fixDecodedObject(o.Value, modules)
+		if err != nil {
+			return nil, err
+		}
+		o.Value = fv
 	case *ImmutableMap:
 		modName := inferModuleName(o)
 		if mod := modules.GetBuiltinModule(modName); mod != nil {
